@@ -1,4 +1,5 @@
 import OV.Model.C12Autocast
+import OV.Model.C12Cache
 import OV.Drivers.Loop
 /-! Line-protocol driver for C12.
 
